@@ -10,6 +10,7 @@ import contextlib
 import hashlib
 import os
 import socket
+import sys
 import typing as t
 
 from . import net
@@ -59,9 +60,14 @@ class SimClock:
         return self.ns // 100 + FILETIME_EPOCH
 
     def advance_ns(self, d: int) -> None:
+        """Time passes (d > 0), or - for d < 0 - the wall clock is stepped back."""
         self.ns += int(d)
         if d > 0:
             self.mono_ns += int(d)
+
+    def step_ns(self, d: int) -> None:
+        """The wall clock is STEPPED by d (NTP correction, VM resume, operator): no time passes, the monotonic clock does not move."""
+        self.ns += int(d)
 
 
 class _TimeShim:
@@ -259,6 +265,11 @@ class World:
 
         patch(dclient, "time", _TimeShim(self.clock))
         import time as _time
+
+        # any other library module that imports ``time`` (a changed tree may) sees the same simulated clocks, monotonic ones included
+        for _name, _mod in list(sys.modules.items()):
+            if _name.startswith("dpapi_ng") and _mod is not dclient and getattr(_mod, "time", None) is _time:
+                patch(_mod, "time", _TimeShim(self.clock))
 
         # every reading of the wall clock inside the world is a reading of the simulated clock (library modules other than
         # _client, pyspnego's NTLM timestamps, ...); time.monotonic / perf_counter are left alone (the loop has its own time)
